@@ -62,6 +62,36 @@ def make_trace(tid, pi, lines, amb=False, overlap=False):
     return {'id': tid, 'pi': pi, 'amb': bool(amb), 'overlap': bool(overlap), 'lines': to_json(lines)}
 
 
+def run_batch(spec, payload, n_expected, timeout=3600):
+    """generic batch validation: payload is written as TRACE_FILE; the spec writes OUT_FILE
+    (a JSON sequence of [id, viol]).  Returns ({id: [(clause, line)...]}, stats)"""
+    tmp = tempfile.mkdtemp(prefix='verif_batch_')
+    try:
+        tf = os.path.join(tmp, 'batch.json')
+        of = os.path.join(tmp, 'out.json')
+        with open(tf, 'w') as f:
+            json.dump(payload, f)
+        out, stats = run_tlc(spec, OBS_CFG, env={'TRACE_FILE': tf, 'OUT_FILE': of}, timeout=timeout)
+        if not os.path.exists(of) or 'Error:' in out:
+            raise TLCError('TLC failed on %s batch:\n%s' % (spec, out[-4000:]))
+        with open(of) as f:
+            res = json.load(f)
+        verdicts = {item['id']: [tuple(v) for v in item['viol']] for item in res}
+        if len(verdicts) != n_expected:
+            raise TLCError('verdict count mismatch %d != %d' % (len(verdicts), n_expected))
+        return verdicts, stats
+    finally:
+        shutil.rmtree(tmp, ignore_errors=True)
+
+
+def model_check(spec, cfg, workers=4, timeout=3600, extra=()):
+    """exhaustive TLC run of a model instance; returns stats incl. 'ok'"""
+    out, stats = run_tlc(spec, cfg, workers=workers, timeout=timeout, extra=extra)
+    stats['ok'] = 'Model checking completed. No error has been found.' in out
+    stats['out_tail'] = out[-3000:]
+    return stats
+
+
 def validate_batch(progs_tla, traces, timeout=3600):
     """progs_tla: list of to_tla() programs; traces: list of make_trace().  Returns
     (verdicts {id: [[clause, line], ...]}, stats)"""
